@@ -10,7 +10,7 @@
    a registration call returns true iff the function was not registered for that kind,
    appends it in that case and leaves the list unchanged otherwise; registration, attach and
    detach calls log nothing. *)
-From PFDL Require Import RefSem RunCase Monitors RefShape.
+From PFDL Require Import RefSem RunCase Monitors RefShape NetModel NetRun NetC08.
 
 Theorem C20_log_shape :
   forall orc imm body fuel cs tr,
@@ -18,3 +18,14 @@ Theorem C20_log_shape :
     shape_run default_listeners [] cs tr.
 Proof. intros orc imm body fuel cs tr H. exact (shape_run_ref orc imm body fuel cs sched0 tr H). Qed.
 Print Assumptions C20_log_shape.
+
+(* registration on the faithful model of register_callback_* (NetModel.v): refused exactly
+   for an already registered function, which leaves the list unchanged *)
+Theorem C20_net_registration :
+  forall tasks env fuel (s : NS) k l,
+    net_api_call tasks env fuel s (ARegister k l) =
+    if existsb (fun p => nkind_eqb (fst p) k && Nat.eqb (snd p) l) (ns_ls s)
+    then Ok (false, cleared s)
+    else Ok (true, cleared s <| ns_ls := ns_ls s ++ [(k, l)] |>).
+Proof. exact net_api_register. Qed.
+Print Assumptions C20_net_registration.
